@@ -33,6 +33,10 @@ type FetchResp struct {
 	// StallAt > 0: the first StallAt bytes of the response frame are written, the rest after StallFor (a slow link)
 	StallAt  int
 	StallFor time.Duration
+	// Chunk > 0: the response frame reaches the client in pieces of Chunk bytes (net.Pipe hands every Write to the
+	// reader as its own Read: the client's bufio.Reader is refilled at exactly these boundaries — inside the size
+	// prefix, inside fixed-width fields, inside varints)
+	Chunk int
 }
 
 type Broker struct {
@@ -40,11 +44,21 @@ type Broker struct {
 	Topic      string
 	OnFetch    func(FetchReq) FetchResp
 	OnOffset   func(conn int, ts int64) (int64, int16) // ts -2 = first, -1 = last
+	// OnOffsetHang != nil and true: this ListOffsets request is never answered (the connection stays open)
+	OnOffsetHang func(conn int) bool
 	OnMetadata func(conn int) (leader int32, partErr int16)
 	OnConn     func(conn int) bool // false: refuse (close immediately)
 
-	mu    sync.Mutex
-	nconn int
+	mu      sync.Mutex
+	nconn   int
+	nclosed int // connections that are over (the client hung up, or the broker cut the connection off)
+}
+
+// Conns: connections accepted so far, and how many of them are over.
+func (b *Broker) Conns() (opened, closed int) {
+	b.mu.Lock()
+	defer b.mu.Unlock()
+	return b.nconn, b.nclosed
 }
 
 func (b *Broker) Dial() (net.Conn, int) {
@@ -80,6 +94,13 @@ func wstr(b *bytes.Buffer, s string) { be16(b, int16(len(s))); b.WriteString(s) 
 
 func (b *Broker) serve(c net.Conn, id int) {
 	defer c.Close()
+	defer func() {
+		// the connection is over: the client hung up (the broker's read or write failed) or the broker cut it off.  A
+		// connection the client forgets keeps this goroutine in its read.
+		b.mu.Lock()
+		b.nclosed++
+		b.mu.Unlock()
+	}()
 	if b.OnConn != nil && !b.OnConn(id) {
 		return
 	}
@@ -99,6 +120,7 @@ func (b *Broker) serve(c net.Conn, id int) {
 		be32(&body, corr)
 		cut := -1
 		stallAt, stallFor := 0, time.Duration(0)
+		chunk := 0
 		switch key {
 		case 18: // ApiVersions v0
 			be16(&body, 0)
@@ -138,6 +160,10 @@ func (b *Broker) serve(c net.Conn, id int) {
 			_ = r.i32() // partitions
 			_ = r.i32() // partition
 			ts := r.i64()
+			if b.OnOffsetHang != nil && b.OnOffsetHang(id) {
+				io.Copy(io.Discard, c) // swallow further input until the client gives up
+				return
+			}
 			off, e := int64(0), int16(0)
 			if b.OnOffset != nil {
 				off, e = b.OnOffset(id, ts)
@@ -209,6 +235,7 @@ func (b *Broker) serve(c net.Conn, id int) {
 				cut = p.CutFn(body.Len())
 			}
 			stallAt, stallFor = p.StallAt, p.StallFor
+			chunk = p.Chunk
 		default:
 			return
 		}
@@ -226,6 +253,12 @@ func (b *Broker) serve(c net.Conn, id int) {
 			}
 			time.Sleep(stallFor)
 			w = w[4+stallAt:]
+		}
+		for chunk > 0 && len(w) > chunk {
+			if _, err := c.Write(w[:chunk]); err != nil {
+				return
+			}
+			w = w[chunk:]
 		}
 		if _, err := c.Write(w); err != nil {
 			return
